@@ -142,14 +142,14 @@ static void do_op(Cmd *c) {
     if (is_op(c, "new")) {
         CC_ArraySizedConf conf; conf_fill(&conf, c);
         size_t es = kv_u64(c, "esize", 1);
-        if (ar[s] || es == 0 || es > MAXDL) { o("st=- badslot"); goto tail; }
+        if (ar[s] || es > MAXDL) { o("st=- badslot"); goto tail; }
         enum cc_stat st = cc_array_sized_new_conf(es, &conf, &ar[s]);
         if (st != CC_OK) ar[s] = NULL;
         o_stat(st); goto tail;
     }
     if (is_op(c, "new_default")) {
         size_t es = kv_u64(c, "esize", 1);
-        if (ar[s] || es == 0 || es > MAXDL) { o("st=- badslot"); goto tail; }
+        if (ar[s] || es > MAXDL) { o("st=- badslot"); goto tail; }
         default_mode = 1;
         enum cc_stat st = cc_array_sized_new(es, &ar[s]);
         if (st != CC_OK) ar[s] = NULL;
